@@ -28,6 +28,7 @@
 #define XV_NAME_ROOM (sizeof(((struct xcm_addr_host *)0)->name))      /* 254 */
 
 /* ---- ghosts shared by all sections ---------------------------------------------------------------------------- */
+typedef unsigned short unsigned_short;   /* (a job header cannot pass a type name with a blank) */
 long xv_i16;                    /* arbitrary index into a 16-byte IPv6 address (never assigned) */
 long xv_nj;                     /* arbitrary index into host->name (never assigned) */
 long xv_hb;                     /* arbitrary byte offset into an output object (never assigned) */
@@ -131,9 +132,16 @@ _Bool xv_pf_addr, xv_pf_namep; uint32_t xv_pf_ip4; uint8_t xv_pf_ipb; char xv_pf
     __CPROVER_assigns(capacity > 0: __CPROVER_object_upto(name, capacity)) \
     __CPROVER_ensures(XV_UXP_POST(pk, addr_s, name, capacity))
 /* contract text of a public maker */
-#define XV_MK_WRAPPER(fn, pk, PT) \
+/* (psz: size of the wrapper's protocol-name literal.  Where the wrapper is ENFORCED it binds the ghost size the contract of
+ * host_port_make is stated for; callers that assume the wrapper - other translation units - never see that ghost) */
+#ifdef XV_AP_ADDR
+#define XV_MK_PSZ(psz) (xv_proto_sz == (psz))
+#else
+#define XV_MK_PSZ(psz) 1
+#endif
+#define XV_MK_WRAPPER(fn, pk, PT, psz) \
     int fn(const struct xcm_addr_host *host, PT port, char *out, size_t capacity) \
-    __CPROVER_requires(__CPROVER_is_fresh(host, sizeof(*host)) && XV_HOST_OK(host) && capacity <= XV_CAP_MAX && XV_OUT(out, capacity) && XV_MK_PRE) \
+    __CPROVER_requires(XV_MK_PSZ(psz) && __CPROVER_is_fresh(host, sizeof(*host)) && XV_HOST_OK(host) && capacity <= XV_CAP_MAX && XV_OUT(out, capacity) && XV_MK_PRE) \
     __CPROVER_assigns(XV_MK_ASSIGNS) \
     __CPROVER_assigns(capacity > 0: __CPROVER_object_upto(out, capacity)) \
     __CPROVER_ensures(XV_MK_CALL(pk, port, out, capacity) && XV_MK_HOSTREC(host)) \
@@ -342,13 +350,149 @@ XV_UXP_WRAPPER(XV_AP_WRAP_UXP, XV_AP_WRAP_PK);
 #endif
 #ifdef XV_AP_WRAP_MK
 /* PO[C12] xcm_addr_make_X.own_protocol_and_arguments */
-XV_MK_WRAPPER(XV_AP_WRAP_MK, XV_AP_WRAP_PK, XV_AP_WRAP_PT);
+XV_MK_WRAPPER(XV_AP_WRAP_MK, XV_AP_WRAP_PK, XV_AP_WRAP_PT, XV_AP_WRAP_PSZ);
 #endif
 #ifdef XV_AP_WRAP_UXM
 /* PO[C12] xcm_addr_make_UX.own_protocol_and_arguments */
 XV_UXM_WRAPPER(XV_AP_WRAP_UXM, XV_AP_WRAP_PK);
 #endif
 #endif /* XV_AP_ADDR */
+
+/* ================================================================================================================ */
+#ifdef XV_AP_COMPAT
+/* ---- libxcm/core/xcm_addr_compat.c: the old API.  The new-API functions it wraps (xcm_addr_parse_X / xcm_addr_make_X,
+ * xcm_addr_parse_ux / xcm_addr_make_ux) are ASSUMED with the very contract text that is ENFORCED on them in the
+ * XV_AP_ADDR jobs; everything below is stated in the vocabulary of that text: "what the new-API function returned, set
+ * errno to and delivered" is xv_pf_rv / xv_pf_errno / xv_pf_type, _family, _ip4, _ipb, _port (makers: xv_mk_*). */
+XV_PF_WRAPPER(xcm_addr_parse_utls, XV_P_UTLS); XV_PF_WRAPPER(xcm_addr_parse_tls, XV_P_TLS); XV_PF_WRAPPER(xcm_addr_parse_tcp, XV_P_TCP); XV_PF_WRAPPER(xcm_addr_parse_sctp, XV_P_SCTP);
+XV_UXP_WRAPPER(xcm_addr_parse_ux, XV_P_UX);
+XV_MK_WRAPPER(xcm_addr_make_utls, XV_P_UTLS, uint16_t, 5); XV_MK_WRAPPER(xcm_addr_make_tls, XV_P_TLS, uint16_t, 4); XV_MK_WRAPPER(xcm_addr_make_tcp, XV_P_TCP, uint16_t, 4); XV_MK_WRAPPER(xcm_addr_make_sctp, XV_P_SCTP, uint16_t, 5);
+XV_UXM_WRAPPER(xcm_addr_make_ux, XV_P_UX);
+
+/* which new-API function a function pointer stands for, as its protocol name */
+#define XV_PFUN_OK(f) ((f) == xcm_addr_parse_utls || (f) == xcm_addr_parse_tls || (f) == xcm_addr_parse_tcp || (f) == xcm_addr_parse_sctp)
+#define XV_PFUN_PK(f) ((f) == xcm_addr_parse_utls ? XV_P_UTLS : (f) == xcm_addr_parse_tls ? XV_P_TLS : (f) == xcm_addr_parse_tcp ? XV_P_TCP : XV_P_SCTP)
+#define XV_MFUN_OK(f) ((f) == xcm_addr_make_utls || (f) == xcm_addr_make_tls || (f) == xcm_addr_make_tcp || (f) == xcm_addr_make_sctp)
+#define XV_MFUN_PK(f) ((f) == xcm_addr_make_utls ? XV_P_UTLS : (f) == xcm_addr_make_tls ? XV_P_TLS : (f) == xcm_addr_make_tcp ? XV_P_TCP : XV_P_SCTP)
+#define XV_P6FUN_OK(f) ((f) == xcm_addr_utls6_parse || (f) == xcm_addr_tls6_parse || (f) == xcm_addr_tcp6_parse)
+#define XV_P6FUN_PK(f) ((f) == xcm_addr_utls6_parse ? XV_P_UTLS : (f) == xcm_addr_tls6_parse ? XV_P_TLS : XV_P_TCP)
+
+/* --- IP-only parsers (delegate_parse and the four xcm_addr_X6_parse) */
+#define XV_IPB(ip_, off) (((const uint8_t *)(ip_))[off])
+#define XV_HB_IP_OK (xv_hb >= 0 && xv_hb < (long)sizeof(struct xcm_addr_ip))
+#define XV_DP_PRE(addr_s, ip_, port) (__CPROVER_is_fresh(addr_s, 8) && __CPROVER_is_fresh(ip_, sizeof(struct xcm_addr_ip)) && __CPROVER_is_fresh(port, sizeof(uint16_t)) && XV_PF_PRE && \
+                                      XV_HB_IP_OK)
+/* the wrapped parser is called exactly once, with the caller's string */
+#define XV_DP_WRAPS(pk, addr_s) XV_PF_CALL(pk, addr_s)
+/* result: that of the wrapped parser, except that a DNS-name result is refused with -1/EINVAL; errno as the wrapped parser left it otherwise */
+#define XV_DP_RESULT (__CPROVER_return_value == ((xv_pf_rv == 0 && xv_pf_type == (int)xcm_addr_type_ip) ? 0 : -1) && \
+                      (xv_pf_rv == -1 ==> xv_errno == xv_pf_errno) && ((xv_pf_rv == 0 && xv_pf_type != (int)xcm_addr_type_ip) ==> xv_errno == EINVAL) && \
+                      (__CPROVER_return_value == 0 ==> xv_errno == xv_pf_errno))
+/* outputs: the address and port the wrapped parser delivered (family, IPv4 word, every IPv6 byte; network byte order untouched); nothing on failure */
+#define XV_DP_OUTPUTS(ip_, port) ((__CPROVER_return_value == 0 ==> (XV_FAM_OK((ip_)->family) && (int)(ip_)->family == xv_pf_family && (ip_)->addr.ip4 == xv_pf_ip4 && (ip_)->addr.ip6[xv_i16] == xv_pf_ipb && *(port) == xv_pf_port)) && \
+                                  (__CPROVER_return_value == -1 ==> (XV_IPB(ip_, xv_hb) == __CPROVER_old(XV_IPB(ip_, xv_hb)) && *(port) == __CPROVER_old(*(port)))))
+#define XV_DP_ASSIGNS(ip_, port) xv_errno, XV_PF_GHOSTS, __CPROVER_object_whole(ip_), *(port)
+
+static int delegate_parse(int (parse_fun)(const char *, struct xcm_addr_host *, uint16_t *port), const char *addr_s, struct xcm_addr_ip *ip, uint16_t *port)
+__CPROVER_requires(XV_PFUN_OK(parse_fun) && XV_DP_PRE(addr_s, ip, port))
+__CPROVER_assigns(XV_DP_ASSIGNS(ip, port))
+/* PO[C12] delegate_parse.wraps: the parser given is called exactly once, with the caller's string */
+__CPROVER_ensures(XV_DP_WRAPS(XV_PFUN_PK(parse_fun), addr_s))
+/* PO[C12] delegate_parse.result: result and errno are the wrapped parser's, except that a DNS-name host is refused with -1/EINVAL */
+__CPROVER_ensures(XV_DP_RESULT)
+/* PO[C12] delegate_parse.outputs: on success the wrapped parser's address and port, unchanged; on failure nothing */
+__CPROVER_ensures(XV_DP_OUTPUTS(ip, port))
+;
+#define XV_P6_CONTRACT(fn, pk) \
+    int fn(const char *addr_s, struct xcm_addr_ip *ip, uint16_t *port) \
+    __CPROVER_requires(XV_DP_PRE(addr_s, ip, port)) \
+    __CPROVER_assigns(XV_DP_ASSIGNS(ip, port)) \
+    __CPROVER_ensures(XV_DP_WRAPS(pk, addr_s) && XV_DP_RESULT && XV_DP_OUTPUTS(ip, port))
+/* PO[C12] xcm_addr_utls6_parse.as_new_api_ip_only */
+XV_P6_CONTRACT(xcm_addr_utls6_parse, XV_P_UTLS);
+/* PO[C12] xcm_addr_tls6_parse.as_new_api_ip_only */
+XV_P6_CONTRACT(xcm_addr_tls6_parse, XV_P_TLS);
+/* PO[C12] xcm_addr_tcp6_parse.as_new_api_ip_only */
+XV_P6_CONTRACT(xcm_addr_tcp6_parse, XV_P_TCP);
+/* PO[C12] xcm_addr_sctp6_parse.as_new_api_ip_only */
+XV_P6_CONTRACT(xcm_addr_sctp6_parse, XV_P_SCTP);
+
+/* --- IPv4-only parsers (parse6_call and the three xcm_addr_X_parse) */
+#define XV_P4_PRE(addr_s, ip_, port) (__CPROVER_is_fresh(addr_s, 8) && __CPROVER_is_fresh(ip_, sizeof(in_addr_t)) && __CPROVER_is_fresh(port, sizeof(uint16_t)) && XV_PF_PRE && XV_HB_IP_OK)
+#define XV_P4_OK (xv_pf_rv == 0 && xv_pf_type == (int)xcm_addr_type_ip && xv_pf_family == AF_INET)
+/* result: the new-API parser's, restricted to IPv4 addresses: a DNS name or an IPv6 address is refused with -1/EINVAL */
+#define XV_P4_RESULT (__CPROVER_return_value == (XV_P4_OK ? 0 : -1) && (xv_pf_rv == -1 ==> xv_errno == xv_pf_errno) && \
+                      ((xv_pf_rv == 0 && !XV_P4_OK) ==> xv_errno == EINVAL) && (__CPROVER_return_value == 0 ==> xv_errno == xv_pf_errno))
+/* outputs: the IPv4 word (network byte order, as delivered) and the port; nothing on failure */
+#define XV_P4_OUTPUTS(ip_, port) ((__CPROVER_return_value == 0 ==> (*(ip_) == xv_pf_ip4 && *(port) == xv_pf_port)) && \
+                                  (__CPROVER_return_value == -1 ==> (*(ip_) == __CPROVER_old(*(ip_)) && *(port) == __CPROVER_old(*(port)))))
+static int parse6_call(int (*parse6_fun)(const char *tls_addr_s, struct xcm_addr_ip *ip, uint16_t *port), const char *addr_s, in_addr_t *ip, uint16_t *port)
+__CPROVER_requires(XV_P6FUN_OK(parse6_fun) && XV_P4_PRE(addr_s, ip, port))
+__CPROVER_assigns(xv_errno, XV_PF_GHOSTS, *ip, *port)
+/* PO[C12] parse6_call.wraps */
+__CPROVER_ensures(XV_DP_WRAPS(XV_P6FUN_PK(parse6_fun), addr_s))
+/* PO[C12] parse6_call.result: IPv6 results and DNS names are refused with -1/EINVAL, everything else is the wrapped function's */
+__CPROVER_ensures(XV_P4_RESULT)
+/* PO[C12] parse6_call.outputs: the IPv4 address in network byte order and the port, as delivered; nothing on failure */
+__CPROVER_ensures(XV_P4_OUTPUTS(ip, port))
+;
+#define XV_P4_CONTRACT(fn, pk) \
+    int fn(const char *addr_s, in_addr_t *ip, uint16_t *port) \
+    __CPROVER_requires(XV_P4_PRE(addr_s, ip, port)) \
+    __CPROVER_assigns(xv_errno, XV_PF_GHOSTS, *ip, *port) \
+    __CPROVER_ensures(XV_DP_WRAPS(pk, addr_s) && XV_P4_RESULT && XV_P4_OUTPUTS(ip, port))
+/* PO[C12] xcm_addr_utls_parse.as_new_api_ipv4_only */
+XV_P4_CONTRACT(xcm_addr_utls_parse, XV_P_UTLS);
+/* PO[C12] xcm_addr_tls_parse.as_new_api_ipv4_only */
+XV_P4_CONTRACT(xcm_addr_tls_parse, XV_P_TLS);
+/* PO[C12] xcm_addr_tcp_parse.as_new_api_ipv4_only */
+XV_P4_CONTRACT(xcm_addr_tcp_parse, XV_P_TCP);
+
+/* PO[C12] xcm_addr_ux_parse.as_new_api */
+XV_UXP_WRAPPER(xcm_addr_ux_parse, XV_P_UX);
+
+/* --- makers: an IP host built from the caller's address goes to the new-API maker with port, buffer and capacity */
+#define XV_DM_PRE(ip_, out, cap) (__CPROVER_is_fresh(ip_, sizeof(struct xcm_addr_ip)) && (cap) <= XV_CAP_MAX && XV_OUT(out, cap) && XV_MK_PRE)
+#define XV_DM_POST(pk, ip_, port, out, cap) (XV_MK_CALL(pk, port, out, cap) && XV_MK_IPREC(ip_) && MAKE_HONEST(__CPROVER_return_value, cap) && MAKE_FAIL(__CPROVER_return_value) && \
+                                             XV_MK_IP_OK(xcm_addr_type_ip, (ip_)->family, cap))
+static int delegate_make(int (make_fun)(const struct xcm_addr_host *, uint16_t port, char *, size_t), const struct xcm_addr_ip *ip, uint16_t port, char *addr_s, size_t capacity)
+__CPROVER_requires(XV_MFUN_OK(make_fun) && XV_DM_PRE(ip, addr_s, capacity))
+__CPROVER_assigns(XV_MK_ASSIGNS)
+__CPROVER_assigns(capacity > 0: __CPROVER_object_upto(addr_s, capacity))
+/* PO[C12] delegate_make.wraps: the maker given is called exactly once with an IP host holding the caller's family and address bytes, the caller's port, buffer and capacity; result and errno are its */
+__CPROVER_ensures(XV_DM_POST(XV_MFUN_PK(make_fun), ip, port, addr_s, capacity))
+;
+#define XV_M6_CONTRACT(fn, pk) \
+    int fn(const struct xcm_addr_ip *ip, uint16_t port, char *out, size_t capacity) \
+    __CPROVER_requires(XV_DM_PRE(ip, out, capacity)) \
+    __CPROVER_assigns(XV_MK_ASSIGNS) \
+    __CPROVER_assigns(capacity > 0: __CPROVER_object_upto(out, capacity)) \
+    __CPROVER_ensures(XV_DM_POST(pk, ip, port, out, capacity))
+/* PO[C12] xcm_addr_utls6_make.as_new_api */
+XV_M6_CONTRACT(xcm_addr_utls6_make, XV_P_UTLS);
+/* PO[C12] xcm_addr_tls6_make.as_new_api */
+XV_M6_CONTRACT(xcm_addr_tls6_make, XV_P_TLS);
+/* PO[C12] xcm_addr_tcp6_make.as_new_api */
+XV_M6_CONTRACT(xcm_addr_tcp6_make, XV_P_TCP);
+/* PO[C12] xcm_addr_sctp6_make.as_new_api */
+XV_M6_CONTRACT(xcm_addr_sctp6_make, XV_P_SCTP);
+/* IPv4 word in, AF_INET host out: same bits (network byte order is not touched) */
+#define XV_M4_CONTRACT(fn, pk) \
+    int fn(in_addr_t ip4, unsigned short port, char *out, size_t capacity) \
+    __CPROVER_requires(capacity <= XV_CAP_MAX && XV_OUT(out, capacity) && XV_MK_PRE) \
+    __CPROVER_assigns(XV_MK_ASSIGNS) \
+    __CPROVER_assigns(capacity > 0: __CPROVER_object_upto(out, capacity)) \
+    __CPROVER_ensures(XV_MK_CALL(pk, port, out, capacity) && xv_mk_type == (int)xcm_addr_type_ip && xv_mk_family == AF_INET && xv_mk_ip4 == ip4 && \
+                      MAKE_HONEST(__CPROVER_return_value, capacity) && MAKE_FAIL(__CPROVER_return_value) && (capacity >= XV_IP_ADDR_ROOM ==> __CPROVER_return_value == 0))
+/* PO[C12] xcm_addr_utls_make.as_new_api_ipv4 */
+XV_M4_CONTRACT(xcm_addr_utls_make, XV_P_UTLS);
+/* PO[C12] xcm_addr_tls_make.as_new_api_ipv4 */
+XV_M4_CONTRACT(xcm_addr_tls_make, XV_P_TLS);
+/* PO[C12] xcm_addr_tcp_make.as_new_api_ipv4 */
+XV_M4_CONTRACT(xcm_addr_tcp_make, XV_P_TCP);
+/* PO[C12] xcm_addr_ux_make.as_new_api */
+XV_UXM_WRAPPER(xcm_addr_ux_make, XV_P_UX);
+#endif /* XV_AP_COMPAT */
 
 #include "contracts/end.h"
 #endif
